@@ -825,11 +825,11 @@ impl<'r> Gen<'r> {
     }
 }
 
-fn generate(r: &mut Rng, max_ops: u64) -> Program {
+fn generate(r: &mut Rng, min_ops: u64, max_ops: u64) -> Program {
     let n_inst = 2 + r.usize(3);
     let shared_at = if r.chance(1, 3) { Some(r.usize(n_inst)) } else { None };
     let insts = (0..n_inst).map(|i| (shared_at == Some(i), r.below(3) as u8)).collect();
-    let budget = r.range(5, max_ops.max(5)) as i64;
+    let budget = r.range(min_ops.max(1), max_ops.max(min_ops).max(1)) as i64;
     let mut g = Gen { r, n_inst, n_vars: 0, budget, max_depth: 8 };
     let mut sc = Scope { st: Vec::new() };
     let mut ops = Vec::new();
@@ -905,6 +905,7 @@ struct Cx {
     n_vars: usize,
     seed: u64,
     index: u64,
+    min_ops: u64,
     max_ops: u64,
     check_every: usize,
     done: Mutex<Vec<Ts>>,
@@ -912,7 +913,7 @@ struct Cx {
 
 impl Cx {
     fn case(&self) -> Json {
-        json!({"seed": self.seed, "index": self.index, "max_ops": self.max_ops, "check_every": self.check_every})
+        json!({"seed": self.seed, "index": self.index, "min_ops": self.min_ops, "max_ops": self.max_ops, "check_every": self.check_every})
     }
 }
 
@@ -1460,9 +1461,9 @@ fn run_executor<'a>(cx: &'a Cx, mut tasks: Vec<Task<'a>>, mut g: Rng, cancel_pct
 // one program = one case
 // ---------------------------------------------------------------------------
 
-fn run_program(r: &mut Report, seed: u64, index: u64, max_ops: u64, check_every: usize, verbose: bool) {
+fn run_program(r: &mut Report, seed: u64, index: u64, (min_ops, max_ops): (u64, u64), check_every: usize, verbose: bool) {
     let mut g = Rng::stream(seed, &[3, 1, index]);
-    let prog = generate(&mut g, max_ops);
+    let prog = generate(&mut g, min_ops, max_ops);
     if verbose {
         eprintln!("{:?}", prog);
     }
@@ -1471,6 +1472,7 @@ fn run_program(r: &mut Report, seed: u64, index: u64, max_ops: u64, check_every:
         n_vars: prog.n_vars,
         seed,
         index,
+        min_ops,
         max_ops,
         check_every,
         done: Mutex::new(Vec::new()),
@@ -1582,6 +1584,7 @@ fn main() {
          (future suspended between polls, frame or future moved to another thread, or panic unwinding through frames)",
     );
     let max_ops = args.get_u64("max-ops", 60);
+    let min_ops = args.get_u64("min-ops", 5).min(max_ops);
     let check_every = args.get_u64("check-every", 1).max(1) as usize;
     r.set("check_every_kth_program_point", json!(check_every));
     prelude(&mut r);
@@ -1602,17 +1605,22 @@ fn main() {
         let case = load_replay(path);
         let seed = case.get("seed").and_then(|v| v.as_u64()).unwrap_or(args.seed);
         let index = case.get("index").and_then(|v| v.as_u64()).unwrap_or(0);
-        let mo = case.get("max_ops").and_then(|v| v.as_u64()).unwrap_or(max_ops);
-        for _ in 0..3 {
-            // always replay with every program point checked
-            run_program(&mut r, seed, index, mo, 1, false);
+        let mo = (
+            case.get("min_ops").and_then(|v| v.as_u64()).unwrap_or(min_ops),
+            case.get("max_ops").and_then(|v| v.as_u64()).unwrap_or(max_ops),
+        );
+        for k in 0..3 {
+            // always replay with every program point checked; the program is printed once
+            run_program(&mut r, seed, index, mo, 1, k == 0);
+            // the driver treats fewer than two distinct cases as "observed too little"
+            r.nontrivial(&("replay-run", k));
         }
         std::process::exit(r.finish());
     }
 
     let n = args.get_u64("programs", args.n(5_000, 300_000));
     let seed = args.seed;
-    par_cases(&mut r, &args, n, |i, r| run_program(r, seed, i, max_ops, check_every, false));
+    par_cases(&mut r, &args, n, |i, r| run_program(r, seed, i, (min_ops, max_ops), check_every, false));
 
     let code = r.finish();
     if code != 0 {
